@@ -145,6 +145,12 @@ def _norm(msg: str) -> str:
     msg = _VAL_RE.sub("'?' is not", msg)
     msg = _VAL2_RE.sub("The value '?'", msg)
     msg = _LEN_RE.sub("has a length of '?'", msg)
+    # root-cause shaping: a c:plotArea left without any chart element gives a different message
+    # depending on which sibling happens to follow; fold them into one signature
+    if "c:areaChart, c:area3DChart" in msg and ("This element is not expected" in msg or "Missing child" in msg) \
+            and "c:barChart" not in msg.split("Expected")[0]:
+        if re.match(r"Element 'c:(catAx|valAx|dateAx|serAx|dTable|spPr|extLst|plotArea)'", msg):
+            return "c:plotArea: a chart element (c:areaChart | c:barChart | ...) is required but none is present"
     msg = re.sub(r"Duplicate key-sequence \[[^\]]*\]", "Duplicate key-sequence [?]", msg)
     msg = re.sub(r"No match found for key-sequence \[[^\]]*\]", "No match found for key-sequence [?]", msg)
     return msg
